@@ -42,6 +42,7 @@ def lib():
     L.ft = importlib.import_module('xlcalculator.xlfunctions.func_xltypes')
     L.utils = importlib.import_module('xlcalculator.utils')
     L.parser = importlib.import_module('xlcalculator.parser')
+    L.tokenizer = importlib.import_module('xlcalculator.tokenizer')
     L.ast_nodes = importlib.import_module('xlcalculator.ast_nodes')
     L.xltypes = importlib.import_module('xlcalculator.xltypes')
     L.ModelCompiler = xlcalculator.ModelCompiler
